@@ -680,6 +680,10 @@ def _run_cache(e, case, log):
         if inner is not None:
             # the source goes on changing; what the cache view yields now
             # (remembered rows, or fresh ones) is what the wrapper yields
+            # (the cache view is read on its own first: it may remember
+            # what it saw)
+            for _ in iter(inner):
+                pass
             tbl.append(['appended'] * max(len(tbl[0]) if tbl else 1, 1))
             a = [canon_row(r) for r in iter(inner)]
             b = [canon_row(r) for r in iter(view)]
